@@ -85,6 +85,11 @@ VALUE_GROUPS = [
     ["{'k': [{'a': 1}, {'b': 'x'}]}", "{'k': [{'c': 1.5}]}"], ["({'a': 1},)", "({'a': 1, 'b': 'x'},)"],
     ["Registry", "A"], ["{SKey('a'): 1}", "{'b': 2}"], ["[[]]", "[[1]]", "[]"], ["(1, 'a')", "()"],
 ]
+# positions that see many sibling classes and None: more union members than RewriteLargeUnion's default maximum
+WIDE_GROUPS = [
+    ["X1()", "X2()", "X3()", "X4()", "X5()", "X6()", "None"], ["A()", "B()", "C()", "D()", "M()", "None"], ["E1()", "E2()", "E3()", "E4()", "E5()", "E6()", "None"],
+    ["(1,)", "(1, 2)", "(1, 2, 3)", "()", "('a',)", "('a', 'b')", "None"], ["A()", "B()", "C()", "D()", "M()", "1"], ["X1()", "X2()", "X3()", "X4()", "X5()", "R1()"],
+]
 POOL = [e for e in gv.BASIS if "make_gen" not in e and "lambda" not in e]
 
 
@@ -233,7 +238,9 @@ class Mod:
                 p.ann, p.vals = s["ann"], list(s["vals"])
             else:
                 n = rng.choice([1, 1, 2, 3]) if not self.opts.get("wide") else rng.choice([1, 2, 3, 6, 7, 8])
-                if not self.opts.get("pool") and rng.random() < 0.2:
+                if not self.opts.get("pool") and f.idx % 5 == 0 and p is params[0]:
+                    p.vals = list(WIDE_GROUPS[(f.idx // 5) % len(WIDE_GROUPS)])
+                elif not self.opts.get("pool") and rng.random() < 0.2:
                     p.vals = list(rng.choice(VALUE_GROUPS))
                 else:
                     p.vals = [prefix_keys(e, f"f{f.idx}") if unique else e for e in rng.sample(self.value_pool(), n)]
@@ -307,6 +314,8 @@ class Mod:
                 else:
                     n = rng.choice([1, 1, 2])
                     f.ret_vals = [prefix_keys(e, f"r{idx}") if unique else e for e in rng.sample(self.value_pool(), n)]
+                    if not self.opts.get("pool") and idx % 5 == 1 and flavor == "plain":
+                        f.ret_vals = list(WIDE_GROUPS[(idx // 5) % len(WIDE_GROUPS)])
             elif f.exit in ("none", "raise") and flavor == "plain" and rng.random() < 0.15:
                 f.ret_ann = "None" if f.exit == "none" else rng.choice(["int", "None"])
             self.funcs.append(f)
@@ -347,15 +356,16 @@ class Mod:
         for f in self.funcs:
             if subset is not None and f.qual not in subset:
                 continue
-            for _ in range(rng.randint(*ncalls)):
+            wide = max([len(p.vals) for p in f.params if len(p.vals) > 4] + [len(f.ret_vals) if len(f.ret_vals) > 4 else 0])
+            for ci in range(max(rng.randint(*ncalls), wide)):
                 args, kwargs = [], {}
                 kwmode = False
                 for p in [p for p in f.params if p.kind in ("posonly", "normal")]:
-                    skip = p.default is not None and rng.random() < 0.4
+                    skip = p.default is not None and rng.random() < 0.4 and len(p.vals) <= 4
                     if skip:
                         kwmode = True
                         continue
-                    v = rng.choice(p.vals)
+                    v = rng.choice(p.vals) if len(p.vals) <= 4 else p.vals[ci % len(p.vals)]  # wide positions see every value
                     if kwmode:
                         if p.kind == "posonly":
                             continue
